@@ -474,8 +474,12 @@ def run_ie_case(spec):
         def apply(self, x, mode):
             self._check_input(x, mode)
             self._log.append(int(mode))
-            return ift.Field.from_raw(dom, self._mats[mode] @ x.asnumpy())
+            xin = np.array(x.asnumpy(), dtype=np.complex128)
+            yout = self._mats[mode] @ x.asnumpy()
+            calls.append((self._log is log_op, xin, np.array(yout, dtype=np.complex128)))
+            return ift.Field.from_raw(dom, yout)
 
+    calls = []            # every application (wrapped operator and approximation) in order: (is_op, input, output)
     log_op, log_ap = [], []
     op = CapOp(mats, spec["cap"], log_op)
     ap = CapOp(amats, 15, log_ap) if spec.get("approx") else None
@@ -497,6 +501,7 @@ def run_ie_case(spec):
             out["exception"] = type(ex).__name__
             out["refused"] = False
     out["log_op"], out["log_ap"] = log_op, log_ap
+    out["calls"], out["xv"] = calls[:2], np.array(xv, dtype=np.complex128)
     if spec["mode"] in mats:
         out["expected"] = mats[spec["mode"]] @ xv
     return out
@@ -513,8 +518,24 @@ def coq_ie_case(o):
         if len(so) != 1 or (sp.get("approx") and len(sa) != 1):
             return "false"
         obs = "(IeSolve %d %d)" % (so.pop(), sa.pop() if sa else sp["mode"])
+    start = ""
+    if obs.startswith("(IeSolve") and not o.get("exception"):
+        # numerical branch: x0 = 0, QuadraticEnergy(x0, invop, x): the first application is the wrapped operator on
+        # x0, the next one (approximation or operator) gets the start residual invop(x0) - x   (model: ie_energy0)
+        calls = o.get("calls") or []
+        if not calls or not calls[0][0]:
+            return "false"
+        zero = np.zeros(len(o["xv"]), dtype=np.complex128)
+        second = calls[1][1] if len(calls) > 1 else calls[0][2] - o["xv"]
+        start = " && ie_start_case %s %s %s %s %s" % tuple(cvec(ri(v)) for v in (zero, o["xv"], calls[0][1], calls[0][2], second))
     return ("plan_eqb (ie_apply t_ilog t_validMode t_modeTable t_addInverse t_INVERSE_BIT %d %d) %s"
-            " && Nat.eqb (nth %d t_addInverse 0) %d" % (sp["cap"], sp["mode"], obs, sp["cap"], o.get("capability", -1) if o.get("capability") is not None else 0))
+            " && Nat.eqb (nth %d t_addInverse 0) %d" % (sp["cap"], sp["mode"], obs, sp["cap"], o.get("capability", -1) if o.get("capability") is not None else 0)) + start
+
+
+def ri(v):
+    """complex vector as interleaved re/im doubles (elementwise +/- of complex numbers is componentwise)"""
+    v = np.asarray(v, dtype=np.complex128)
+    return [t for z in v for t in (z.real, z.imag)]
 
 
 def ie_oracle(o):
